@@ -50,6 +50,7 @@ def attempt(kind, phase, fault, base, crash_at=None, exc_at=None, crash_after=No
     rec.install()
     gen.CTRL['raise'] = None
     gen.CTRL['bad'] = {}
+    gen.CTRL['gen'] = 3      # this attempt writes 4 padding arrays for list-of-array results, later ones fewer
     plan = json.dumps({'slug': 'g:t'})
     if fault == 'raise':
         gen.CTRL['raise'] = {'slug': 'g:t'}
@@ -61,7 +62,7 @@ def attempt(kind, phase, fault, base, crash_at=None, exc_at=None, crash_after=No
     try:
         try:
             v = t.value
-            out['value'] = gen.decode(kind, v)
+            out['value'] = _nogen(gen.decode(kind, v))
         except BaseException as e:  # noqa
             out['exc'] = f'{type(e).__name__}: {e}'[:200]
     finally:
@@ -76,25 +77,35 @@ def attempt(kind, phase, fault, base, crash_at=None, exc_at=None, crash_after=No
     # same-process retry after an exception: "requesting the value again always recovers"
     if out['exc'] is not None:
         gen.RUNLOG.clear()
+        gen.CTRL['gen'] = 4
         try:
-            out['retry'] = gen.decode(kind, t.value)
+            out['retry'] = _nogen(gen.decode(kind, t.value))
             out['retry_exc'] = None
         except BaseException as e:  # noqa
             out['retry_exc'] = f'{type(e).__name__}: {e}'[:200]
     return out
 
 
+def _nogen(tree):
+    if isinstance(tree, dict):
+        return {k: _nogen(v) for k, v in tree.items() if k != '#gen'}
+    if isinstance(tree, list):
+        return [_nogen(v) for v in tree]
+    return tree
+
+
 def later_chain(kind, base):
     """What a later chain (fresh interpreter) finds: has_data, value, runs; then once more."""
     res = {}
     for rnd in ('first', 'second'):
+        gen.CTRL['gen'] = 5      # fewer padding arrays than the interrupted attempt wrote
         chain = build(kind, base)
         t = chain['g:t']
         gen.RUNLOG.clear()
         r = {}
         try:
             r['has_data'] = bool(t.has_data)
-            r['value'] = gen.decode(kind, t.value)
+            r['value'] = _nogen(gen.decode(kind, t.value))
             r['exc'] = None
         except BaseException as e:  # noqa
             r['exc'] = f'{type(e).__name__}: {e}'[:200]
@@ -105,7 +116,8 @@ def later_chain(kind, base):
     t = chain['g:t']
     r = {}
     try:
-        r['value'] = gen.decode(kind, t.force().value)
+        gen.CTRL['gen'] = 7
+        r['value'] = _nogen(gen.decode(kind, t.force().value))
         r['exc'] = None
     except BaseException as e:  # noqa
         r['exc'] = f'{type(e).__name__}: {e}'[:200]
